@@ -96,10 +96,10 @@ def run(tier, seed, pid='C04'):
                 chk.violation('recording %s-message stream (%s, %s reads): implementation raised %s' % (
                     nm, sty, len(reads), type(ex).__name__),
                     dict(kind='exception', module='c04', nmsgs=nm, style=sty, trace=core.traceback_str()))
-        name = 'MC_Framing_' + inst.tag
+        name = 'Framing'
         core.validate_and_report(chk, name, OBS, ACTIONS, batch, inst.cfg([], spec=False), INVS, pid.lower(),
                                  {'inst': inst.tag}, 'long/%d msgs/%s' % (nm, role), nproc=len(batch),
-                                 extra={name + '.tla': inst.module(name, 1)})
+                                 extra={'FramingData.tla': inst.module(name, 1)})
         chk.sample({'recorded': 'stream of %d messages (%d bytes), read sizes %s...' % (
             nm, inst.n, [a['k'] for a, s in batch[-1][1:8]])})
     # 4: canary
@@ -109,9 +109,9 @@ def run(tier, seed, pid='C04'):
     st = dict(st)
     st['batch'] = tuple(st['batch'][:-1])
     tr[1] = (a, st)
-    name = 'MC_Framing_' + inst.tag
+    name = 'Framing'
     rej, _ = core.validate_traces(name, OBS, [tr], ACTIONS, cfg_consts=inst.cfg([], spec=False), nproc=1,
-                                  extra={name + '.tla': inst.module(name, 1)})
+                                  extra={'FramingData.tla': inst.module(name, 1)})
     chk.canary = {'what': 'one delivered message dropped from a recorded step', 'rejected': bool(rej)}
     chk.assumptions = ['stub authenticator (succeeds at the last handshake line) except instance "real"',
                        'messages are built with txdbus itself; their content is checked by C03',
